@@ -239,7 +239,7 @@ def main(argv=None):
 
     t0 = time.perf_counter()
     cfgs = mod.configs(a.tier)
-    idxs = [i for i, (h, c) in enumerate(cfgs) if not a.only or re.search(a.only, h)]
+    idxs = [i for i, (h, c) in enumerate(cfgs) if not a.only or re.search(a.only, h + " " + json.dumps(c, default=str))]
     results = []
     if a.jobs == 1:
         for i in idxs:
